@@ -346,6 +346,10 @@ fn check<C: Suite>(case: &Case, ctx: &mut Ctx) -> CheckResult {
             let r = rr::aggregate::<C>(&p2, &sh, &keys.pubkeys, &prm);
             ensure!(ctx, matches!(r, Err(Error::IncorrectNumberOfShares)), "C17/coordinator-does-not-refuse", "re-randomized aggregate with {k} < t={} shares returned {:?}", shape.t, r.as_ref().map(|_| "Ok"));
             for (name, md) in modes() {
+                let r = rr::aggregate_custom::<C>(&p2, &sh, &keys.pubkeys, md, &prm);
+                ensure!(ctx, matches!(r, Err(Error::IncorrectNumberOfShares)), "C17/coordinator-does-not-refuse", "re-randomized aggregate_custom({name}) with {k} < t={} shares returned {:?}", shape.t, r.as_ref().map(|_| "Ok"));
+            }
+            for (name, md) in modes() {
                 let lying_pk = PublicKeyPackage::<C>::new(keys.pubkeys.verifying_shares().clone(), vk, Some(k as u16));
                 let r = rr::aggregate_custom::<C>(&p2, &sh, &lying_pk, md, &prm);
                 ensure!(ctx, r.is_err(), "C17/sub-threshold-signature", "re-randomized aggregate_custom({name}) produced a signature from {k} < t={} holders", shape.t);
